@@ -38,6 +38,8 @@ def gen_archive(rnd, flavour, newline):
         e = X.gen_entry(rnd, n, kind, rich=rnd.random() < 0.5, enc=enc if flavour == "encrypted" else None, names=files)
         if kind == 0:
             regular.append(n)
+            if rnd.random() < 0.15:
+                e["nosize"] = True      # no fSIZ chunk (a writer that records no sizes): every view must say "not recorded"
         elif kind == 2:
             e["data"] = rnd.choice(["a.txt", "../x", "dir/sub", "nowhere", "ünï", "with space"]).encode()
             if rnd.random() < 0.2:
@@ -309,8 +311,13 @@ def observe(c, rnd, n_obs):
                             msgs.append("plain list differs from the library's entries: %r vs %r" % (r["out"][:200], exp[:200]))
                     elif view == "jsonl":
                         rows = parse_jsonl(r["out"])
-                        outcome = "OK " + ",".join("%s:%s:%d" % (X.hx(n), k, s) for n, k, s in rows)
-                        exp = [(bytes.fromhex(o["name"]).decode(), kind_char(o["kind"]), o["clen"] if o["kind"] == 0 else 0) for o in visible]
+                        outcome = "OK " + ",".join("%s:%s:%s" % (X.hx(n), k, "-" if s is None else s) for n, k, s in rows)
+                        # raw_size is the RECORDED size: null when the entry has no fSIZ chunk (directories, links, files of a
+                        # writer that records none; fix 09617fb8: it used to print 0 there); a recorded size is the content's length
+                        exp = [(bytes.fromhex(o["name"]).decode(), kind_char(o["kind"]), o["raw_size"]) for o in visible]
+                        for o in visible:
+                            if o["kind"] == 0 and o["raw_size"] is not None and o["clen"] >= 0 and o["raw_size"] != o["clen"]:
+                                msgs.append("recorded raw size %s of %s differs from its content length %s" % (o["raw_size"], o["name"], o["clen"]))
                         if rows != exp:
                             msgs.append("jsonl list differs from the library's entries (name, kind, size): %s vs %s" % (rows[:4], exp[:4]))
                         # C18: `size` is the compressed size (sum of the data chunk payloads)
@@ -326,7 +333,7 @@ def observe(c, rnd, n_obs):
                             outcome = "UNPARSED"; msgs.append("table output does not parse: %r" % r["out"][:200])
                         else:
                             outcome = "OK " + ",".join("%s:%s:%s" % (k, s, X.hx(n)) for k, s, n in rows)
-                            exp = [(kind_char(o["kind"]), str(o["clen"]) if o["kind"] == 0 else "-") for o in visible]
+                            exp = [(kind_char(o["kind"]), "-" if o["raw_size"] is None else str(o["raw_size"])) for o in visible]      # the recorded size
                             if [(k, s) for k, s, _ in rows] != exp:
                                 msgs.append("table list differs from the library's entries (kind, size): %s vs %s" % (rows[:4], exp[:4]))
                             if [n.split(" -> ")[0].rstrip("/@") if classify else n.split(" -> ")[0] for _, _, n in rows] != [hide(bytes.fromhex(o["name"]).decode()) for o in visible]:
